@@ -61,8 +61,36 @@ def inline_helpers(prog: Program, fi: FuncInfo, depth: int = 2) -> FuncInfo:
     fn = copy.deepcopy(fi.node)
     counter = [0]
 
+    def hoist(st: ast.stmt) -> List[ast.stmt]:
+        """`return Quantity(_follow(m, plan), unit)` -> `t = _follow(m, plan); return Quantity(t, unit)`: a helper call nested in
+        the expression of a simple statement is named first, so that it can be expanded like any other."""
+        if not isinstance(st, (ast.Return, ast.Assign, ast.Expr, ast.AnnAssign, ast.AugAssign)) or getattr(st, "value", None) is None:
+            return [st]
+        pre: List[ast.stmt] = []
+        blocked = {id(x) for c in ast.walk(st.value) if isinstance(c, (ast.ListComp, ast.SetComp, ast.DictComp, ast.GeneratorExp, ast.Lambda, ast.IfExp, ast.BoolOp))
+                   for x in ast.walk(c) if x is not c}
+
+        class H(ast.NodeTransformer):
+            def visit_Call(self, n: ast.Call) -> ast.AST:
+                self.generic_visit(n)
+                if n is st.value or id(n) in blocked or not isinstance(n.func, ast.Name):
+                    return n
+                q = mi.functions.get(n.func.id)
+                h = prog.functions[q].node if q and q in prog.functions and q != fi.qual else None
+                if h is None or not _inlinable(h) or not any(isinstance(r, ast.Return) for r in ast.walk(h)):
+                    return n
+                counter[0] += 1
+                nm = f"{n.func.id.strip('_')}__v{counter[0]}"
+                pre.append(ast.copy_location(ast.Assign(targets=[ast.Name(id=nm, ctx=ast.Store())], value=n, lineno=st.lineno), st))
+                return ast.copy_location(ast.Name(id=nm, ctx=ast.Load()), n)
+        st.value = H().visit(st.value)
+        for s_ in pre:
+            ast.fix_missing_locations(s_)
+        return pre + [st]
+
     def expand(body: List[ast.stmt], caller_names: Set[str], d: int) -> List[ast.stmt]:
         out: List[ast.stmt] = []
+        body = [x for st in body for x in hoist(st)]
         for st in body:
             # recurse into compound statements first
             for fld in ("body", "orelse", "finalbody"):
